@@ -510,6 +510,18 @@ func (s *Scope) evalCall(e ECall) Term {
 		case "gdiv":
 			as := args()
 			return T("(gdiv "+as[0].S+" "+as[1].S+")", SInt)
+		case "weight": // arbitrary non-negative weight of a value (uninterpreted): conservation for every weight = multiset equality
+			a := s.Eval(e.Args[0])
+			fn := "weight_" + sanitize(string(a.Sort))
+			w.DeclareFun(fn, []Sort{a.Sort}, SInt)
+			if !w.constSeen[fn+"$ax"] {
+				w.constSeen[fn+"$ax"] = true
+				w.Facts = append([]string{fmt.Sprintf("(forall ((v %s)) (! (>= (%s v) 0) :pattern ((%s v))))", a.Sort, fn, fn)}, w.Facts...)
+				for _, o := range w.Obls {
+					o.FactsN++
+				}
+			}
+			return T("("+fn+" "+a.S+")", SInt)
 		case "utf8enc": // UTF-8 encoding of a scalar value (the function string(rune) computes)
 			v := s.Eval(e.Args[0])
 			so := w.SeqSort(SInt)
@@ -717,6 +729,11 @@ func (x *Exec) defineSpec(sf *SpecFunc) string {
 		x.W.defs = append(x.W.defs, fmt.Sprintf("(assert (forall (%s) (! (= %s %s) :pattern (%s))))", strings.Join(formals, " "), appl, body.S, appl))
 		return name
 	}
+	if sf.Prefix {
+		if err := checkPrefixShape(sf); err != "" {
+			unsupported("spec %s is declared prefix but %s", sf.Name, err)
+		}
+	}
 	if sf.Rec {
 		x.W.defSeen[name] = true // allow self reference
 		body := x.coerce(sc.Eval(sf.Body), ret.sort)
@@ -829,4 +846,279 @@ func (x *Exec) opaqueField(b Term, name string) (Term, bool) {
 		}
 	}
 	return Term{}, false
+}
+
+// checkPrefixShape: f(s, n) may use its sequence parameter only as s[n-1] and as the first argument of the recursive
+// call f(s, n-1); then f(s, n) depends only on s[0..n) (by induction on n), which is what the append rule relies on.
+func checkPrefixShape(sf *SpecFunc) string {
+	if len(sf.Params) != 2 {
+		return "must have exactly the parameters (sequence, count)"
+	}
+	sname, nname := sf.Params[0].Name, sf.Params[1].Name
+	isNminus1 := func(e Expr) bool {
+		b, ok := e.(EBin)
+		if !ok || b.Op != "-" {
+			return false
+		}
+		l, lok := b.L.(EIdent)
+		r, rok := b.R.(ELit)
+		return lok && rok && l.Name == nname && r.Val == "1"
+	}
+	bad := ""
+	var walk func(e Expr)
+	walk = func(e Expr) {
+		switch v := e.(type) {
+		case EIdent:
+			if v.Name == sname {
+				bad = "uses its sequence parameter outside s[n-1] / the recursive call"
+			}
+		case EIndex:
+			if id, ok := v.X.(EIdent); ok && id.Name == sname {
+				if !isNminus1(v.I) {
+					bad = "indexes its sequence parameter at something other than n-1"
+				}
+				return
+			}
+			walk(v.X)
+			walk(v.I)
+		case ECall:
+			if id, ok := v.Fun.(EIdent); ok && id.Name == sf.Name {
+				if len(v.Args) != 2 {
+					bad = "recursive call with wrong arity"
+					return
+				}
+				if a0, ok := v.Args[0].(EIdent); !ok || a0.Name != sname {
+					bad = "recursive call on a different sequence"
+				}
+				if !isNminus1(v.Args[1]) {
+					bad = "recursive call not on n-1"
+				}
+				return
+			}
+			for _, a := range v.Args {
+				walk(a)
+			}
+		case EBin:
+			walk(v.L)
+			walk(v.R)
+		case EUn:
+			walk(v.X)
+		case ECond:
+			walk(v.C)
+			walk(v.A)
+			walk(v.B)
+		case ELet:
+			walk(v.Val)
+			walk(v.Body)
+		case ESel:
+			walk(v.X)
+		case ESlice:
+			walk(v.X)
+		case EQuant:
+			walk(v.Body)
+		}
+	}
+	walk(sf.Body)
+	return bad
+}
+
+// prefixFacts: for every prefix spec function over sequences of this sort, f(new, n) == f(old, n) where new agrees
+// with old on the first n elements (append at n, store at index n).
+func (x *Exec) prefixFacts(newSeq, oldSeq, n Term) {
+	if x.termMode || x.noFacts > 0 {
+		return
+	}
+	for _, sf := range x.P.Contracts.Specs {
+		if !sf.Prefix {
+			continue
+		}
+		tr := func() (r typeRes) {
+			defer func() {
+				if rec := recover(); rec != nil {
+					if _, ok := rec.(Unsupported); ok {
+						r = typeRes{}
+						return
+					}
+					panic(rec)
+				}
+			}()
+			return x.resolveTypeName(sf.Params[0].Type, sf.Pkg)
+		}()
+		if tr.sort != newSeq.Sort {
+			continue
+		}
+		name := x.defineSpec(sf)
+		x.W.Facts = append(x.W.Facts, fmt.Sprintf("(= (%s %s %s) (%s %s %s))", name, newSeq.S, n.S, name, oldSeq.S, n.S))
+	}
+}
+
+// isSumShape: f(s,n) = n <= 0 ? 0 : f(s, n-1) + g(s[n-1])  — a commutative fold, invariant under permutations of s[0..n).
+func isSumShape(sf *SpecFunc) bool {
+	if !sf.Prefix || checkPrefixShape(sf) != "" {
+		return false
+	}
+	c, ok := sf.Body.(ECond)
+	if !ok {
+		return false
+	}
+	if z, ok := c.A.(ELit); !ok || z.Val != "0" {
+		return false
+	}
+	b, ok := c.B.(EBin)
+	if !ok || b.Op != "+" {
+		return false
+	}
+	call, ok := b.L.(ECall)
+	if !ok {
+		return false
+	}
+	id, ok := call.Fun.(EIdent)
+	return ok && id.Name == sf.Name
+}
+
+// permutationFacts: new is a permutation of old (both of length n): every sum-shaped fold agrees on the whole sequence.
+func (x *Exec) permutationFacts(newSeq, oldSeq, n Term) {
+	if x.termMode || x.noFacts > 0 {
+		return
+	}
+	for _, sf := range x.P.Contracts.Specs {
+		if !isSumShape(sf) {
+			continue
+		}
+		tr := func() (r typeRes) {
+			defer func() {
+				if rec := recover(); rec != nil {
+					if _, ok := rec.(Unsupported); ok {
+						r = typeRes{}
+						return
+					}
+					panic(rec)
+				}
+			}()
+			return x.resolveTypeName(sf.Params[0].Type, sf.Pkg)
+		}()
+		if tr.sort != newSeq.Sort {
+			continue
+		}
+		name := x.defineSpec(sf)
+		x.W.Facts = append(x.W.Facts, fmt.Sprintf("(= (%s %s %s) (%s %s %s))", name, newSeq.S, n.S, name, oldSeq.S, n.S))
+	}
+}
+
+// mentionsField: does the spec function body select field name anywhere?
+func mentionsField(e Expr, name string) bool {
+	found := false
+	var walk func(e Expr)
+	walk = func(e Expr) {
+		switch v := e.(type) {
+		case ESel:
+			if v.Name == name {
+				found = true
+			}
+			walk(v.X)
+		case EIndex:
+			walk(v.X)
+			walk(v.I)
+		case ECall:
+			for _, a := range v.Args {
+				walk(a)
+			}
+		case EBin:
+			walk(v.L)
+			walk(v.R)
+		case EUn:
+			walk(v.X)
+		case ECond:
+			walk(v.C)
+			walk(v.A)
+			walk(v.B)
+		case ELet:
+			walk(v.Val)
+			walk(v.Body)
+		case ESlice:
+			walk(v.X)
+		case EQuant:
+			walk(v.Body)
+		}
+	}
+	walk(e)
+	return found
+}
+
+// fieldFrameFacts: newSeq differs from oldSeq only in field `field` of one element: every prefix fold whose body does not
+// select that field (and passes elements only to functions of their other fields) has the same value for every length.
+func (x *Exec) fieldFrameFacts(newSeq, oldSeq Term, field string) {
+	if x.termMode || x.noFacts > 0 {
+		return
+	}
+	for _, sf := range x.P.Contracts.Specs {
+		if !sf.Prefix || mentionsField(sf.Body, field) || usesWholeElement(sf) {
+			continue
+		}
+		tr := func() (r typeRes) {
+			defer func() {
+				if rec := recover(); rec != nil {
+					if _, ok := rec.(Unsupported); ok {
+						r = typeRes{}
+						return
+					}
+					panic(rec)
+				}
+			}()
+			return x.resolveTypeName(sf.Params[0].Type, sf.Pkg)
+		}()
+		if tr.sort != newSeq.Sort {
+			continue
+		}
+		name := x.defineSpec(sf)
+		x.W.nfresh++
+		q := fmt.Sprintf("n!q%d", x.W.nfresh)
+		x.W.Facts = append(x.W.Facts, fmt.Sprintf("(forall ((%s Int)) (! (= (%s %s %s) (%s %s %s)) :pattern ((%s %s %s))))", q, name, newSeq.S, q, name, oldSeq.S, q, name, newSeq.S, q))
+	}
+}
+
+// usesWholeElement: the fold passes s[n-1] as a whole (not through a field selection) to something, e.g. weight(s[n-1]):
+// then a change of any field may matter.
+func usesWholeElement(sf *SpecFunc) bool {
+	sname := sf.Params[0].Name
+	whole := false
+	var walk func(e Expr, underSel bool)
+	walk = func(e Expr, underSel bool) {
+		switch v := e.(type) {
+		case EIndex:
+			if id, ok := v.X.(EIdent); ok && id.Name == sname {
+				if !underSel {
+					whole = true
+				}
+				return
+			}
+			walk(v.X, false)
+			walk(v.I, false)
+		case ESel:
+			walk(v.X, true)
+		case ECall:
+			if id, ok := v.Fun.(EIdent); ok && id.Name == sf.Name {
+				return
+			}
+			for _, a := range v.Args {
+				walk(a, false)
+			}
+		case EBin:
+			walk(v.L, false)
+			walk(v.R, false)
+		case EUn:
+			walk(v.X, false)
+		case ECond:
+			walk(v.C, false)
+			walk(v.A, false)
+			walk(v.B, false)
+		case ELet:
+			walk(v.Val, false)
+			walk(v.Body, false)
+		case ESlice:
+			walk(v.X, underSel)
+		}
+	}
+	walk(sf.Body, false)
+	return whole
 }
